@@ -49,7 +49,7 @@ if $builds; then
   check_out=$(GVC_REPO="$tmp/chk" GVC_OUT="$tmp/out" /verif/bin/gvc check "$prop" 2>&1)
   echo "$check_out" | grep -q "^VIOLATION property=$prop" && detected=true
 fi
-obl=$(echo "$check_out" | grep "failed obligation" | head -3 | sed -E 's/^ *failed obligation //' | cut -c1-200 | tr '\n' '|')
+obl=$(echo "$check_out" | grep "failed obligation\|failed bounded check" | head -3 | sed -E 's/^ *failed obligation //; s/^ *failed bounded check /bounded check: /' | cut -c1-200 | tr '\n' '|')
 python3 - "$seed" "$prop" "$applies" "$builds" "$suite" "$demo_fails" "$demo_passes" "$detected" "$obl" <<'PY'
 import json,sys
 seed,prop,applies,builds,suite,df,dp,det,obl=sys.argv[1:]
